@@ -129,6 +129,11 @@ func (k Keeper) ValidateValidatorBeginUnstaking(ctx sdk.Ctx, validator types.Val
 	if !validator.IsStaked() {
 		return types.ErrValidatorStatus(k.codespace)
 	}
+	// a jailed validator must be unjailed first: its record (and with it the jailed flag) is deleted when the
+	// unstaking matures, so a tombstoned validator could otherwise come back as a brand new, unjailed one
+	if validator.IsJailed() {
+		return types.ErrValidatorJailed(k.codespace)
+	}
 	// sanity check
 	if validator.StakedTokens.LT(sdk.NewInt(k.MinimumStake(ctx))) {
 		panic("should not happen: validator trying to begin unstaking has less than the minimum stake")
